@@ -20,6 +20,10 @@ def main():
         subprocess.check_call(["rsync", "-a", "--exclude", "target", "--exclude", ".git", "/repo/", d + "/"])
         if spec[0] == "--patch":
             subprocess.check_call(["patch", "-p1", "-s", "-i", os.path.abspath(spec[1])], cwd=d)
+        elif spec[0] == "--revert":
+            # undo a commit of /repo (e.g. a fix) in the scratch copy
+            diff = subprocess.run(["git", "-C", "/repo", "show", spec[1]], capture_output=True, text=True, check=True).stdout
+            subprocess.run(["patch", "-p1", "-s", "-R"], cwd=d, input=diff, text=True, check=True)
         else:
             f, old, new = spec
             p = os.path.join(d, f)
